@@ -228,7 +228,7 @@ func NewID(hi, lo uint64) bin.Bin128 {
 }
 
 // DeepMessage builds, iteratively, a message nested depth levels (one field per level); with lists
-// the levels alternate between messages and lists.
+// the outermost message holds one-element lists nested depth-1 levels.
 func DeepMessage(depth int, lists bool) []byte {
 	varint := func(b []byte, v uint64) []byte {
 		switch {
@@ -244,7 +244,8 @@ func DeepMessage(depth int, lists bool) []byte {
 	cur = append(cur, 0, 0, 80)
 	for i := 0; i < depth; i++ {
 		n := len(cur)
-		msg := !lists || i%2 == 1 || i == depth-1
+		// lists: the nesting consists of lists only (inside one outermost message: a frame is a message)
+		msg := !lists || i == depth-1
 		switch {
 		case msg && n <= 65535:
 			cur = append(cur, 1, byte(n>>8), byte(n))
